@@ -349,6 +349,12 @@ static int openssl_verify_sha_pem(jwt_t *jwt, const char *head,
 	} else if (type != EVP_PKEY_id(pkey))
 		VERIFY_ERROR("Incompatible key for algorithm");
 
+	/* RFC 8017 8.1.2 and 8.2.2: an RSA signature has exactly the length
+	 * of the modulus. OpenSSL does not insist on that for RSASSA-PSS. */
+	if ((type == EVP_PKEY_RSA || type == EVP_PKEY_RSA_PSS) &&
+	    slen != EVP_PKEY_get_size(pkey))
+		VERIFY_ERROR("Failed to verify signature");
+
         if (type == EVP_PKEY_EC) {
 		/* Convert EC sigs back to ASN1. */
 		unsigned int bn_len;
